@@ -5,8 +5,9 @@ from props import trxcon_part
 ID = "C03"
 LEVEL = "proof"
 LEAN_MODULES = ["OsmoVerif.Props.C03"] + (["OsmoVerif.Props.Trxcon"] if ID == "C05" else [])
-LEAN_MODEL_MODULES = wc.LEAN_MODEL_MODULES + (trxcon_part.LEAN_MODEL_MODULES if ID == "C05" else [])
-DRIVER_MODULES = wc.DRIVER_MODULES + (["TrxconIf"] if ID == "C05" else [])
+LEAN_MODEL_MODULES = wc.LEAN_MODEL_MODULES + (trxcon_part.LEAN_MODEL_MODULES if ID == "C05" else []) + \
+    (["OsmoVerif.Model.WorldSched"] if ID == "C03" else [])
+DRIVER_MODULES = wc.DRIVER_MODULES + (["TrxconIf"] if ID == "C05" else []) + (["WorldSched"] if ID == "C03" else [])
 ASSUMPTIONS = wc.ASSUMPTIONS + []
 MANIFEST = {
     "text": 'Lean theorems: every accepted burst has exactly one outcome (emitted at the tick of its own FN, reported stale, cleared by power-off) or is still queued, for every history incl. clock jumps and the hyperframe wrap (modular comparison), and in every reachable state of an interleaving semantics of socket-thread operations with the atomic actions of a tick; correspondence of queues, stale reports and emissions; oracle judges routing decisions, stale counts and queue lengths on the real code',
